@@ -60,7 +60,7 @@ def run_one(sim, params):
     nfc = core.import_nfc()
     import nfc.tag
     typ = params["type"]
-    case = gen.GENERATORS[typ](sim, big=params.get("big", False))
+    case = gen.GENERATORS[typ](sim, big=params.get("big", False), **({"huge": True} if typ == "t4" else {}))
     cap = case.true_capacity()
     desc = case.describe()
     with case.world(nfc) as w:
